@@ -57,7 +57,7 @@ impl ByteModel {
     pub fn load_bytes(&self, address: u64, n: usize) -> Option<Vec<u8>> {
         let mut out = Vec::with_capacity(n);
         for i in 0..n as u64 {
-            out.push(self.byte(address + i)?);
+            out.push(self.byte(address.wrapping_add(i))?);
         }
         Some(out)
     }
@@ -78,7 +78,7 @@ impl ByteModel {
             v.to_le_bytes()
         };
         for (i, x) in b.iter().enumerate() {
-            self.stored.insert(address + i as u64, *x);
+            self.stored.insert(address.wrapping_add(i as u64), *x);
         }
     }
 
